@@ -2,6 +2,7 @@ package main
 
 import (
 	"fmt"
+	"go/ast"
 	"os"
 	"sort"
 	"strings"
@@ -56,6 +57,7 @@ type HarnessResult struct {
 	Observes        []map[string]string `json:"observes,omitempty"`
 	Panics          map[string]int      `json:"panics,omitempty"`
 	Witnesses       []Witness           `json:"witnesses,omitempty"`
+	Solver          string              `json:"solver"`
 	witSigs         map[string]bool
 	violKeys        map[string]bool
 }
@@ -111,6 +113,22 @@ func runHarness(prog *ssa.Program, fn *ssa.Function, cfg *HarnessCfg) *HarnessRe
 	res := &HarnessResult{Name: fn.Name(), AssertsReached: map[string]int{}, Covers: map[string]int{}, Panics: map[string]int{}}
 	stats := &SolverStats{}
 	st := NewTermStore()
+	// per-harness directives in the doc comment: //vx:solver <kind>, //vx:solver-timeout <ms>
+	if fd, ok := fn.Syntax().(*ast.FuncDecl); ok && fd.Doc != nil {
+		for _, c := range fd.Doc.List {
+			f := strings.Fields(strings.TrimPrefix(c.Text, "//"))
+			if len(f) == 2 && f[0] == "vx:solver" {
+				cfg.Solver = f[1]
+			}
+			if len(f) == 2 && f[0] == "vx:solver-timeout" {
+				fmt.Sscan(f[1], &cfg.SolverTimeout)
+			}
+			if len(f) == 2 && f[0] == "vx:max-seconds" {
+				fmt.Sscan(f[1], &cfg.MaxSeconds)
+			}
+		}
+	}
+	res.Solver = cfg.Solver
 	sol, err := NewSolver(cfg.Solver, st, cfg.SolverTimeout, stats)
 	if err != nil {
 		res.Inconclusive = append(res.Inconclusive, "solver start: "+err.Error())
@@ -129,6 +147,7 @@ func runHarness(prog *ssa.Program, fn *ssa.Function, cfg *HarnessCfg) *HarnessRe
 	in.nextObj = 1 << 20 // ids below are reserved for globals/init-time objects: always journaled
 	baseCfg := *cfg
 	work := [][]decision{nil}
+	lastPrint := time.Now()
 	stubSeen := map[string]bool{}
 	boundSeen := map[string]bool{}
 	for len(work) > 0 {
@@ -245,7 +264,8 @@ func runHarness(prog *ssa.Program, fn *ssa.Function, cfg *HarnessCfg) *HarnessRe
 			}
 		}
 		work = append(work, in.ctx.alts...)
-		if cfg.Verbose && res.Paths%50 == 0 {
+		if cfg.Verbose && (res.Paths%50 == 0 || time.Since(lastPrint) > 10*time.Second) {
+			lastPrint = time.Now()
 			fmt.Fprintf(os.Stderr, "[%s] paths=%d pending=%d queries=%d solver=%.1fs\n", fn.Name(), res.Paths, len(work), stats.Queries, stats.Time.Seconds())
 		}
 	}
